@@ -868,7 +868,7 @@ func init() {
 			l.Add("fixed", c05Params{Rows: 5, NCols: 3, PK: []int{2}, Branches: 2, Ops: []string{"edit"}, Intensity: 2, Output: "blocks"}, 72)
 			l.Add("fixed", c05Params{Rows: 6, NCols: 2, PK: nil, Branches: 2, Ops: []string{"add", "remove"}, Intensity: 3, Output: "rows"}, 73)
 			l.Add("fixed", c05Params{Rows: 6, NCols: 3, PK: []int{0}, Branches: 2, Ops: []string{"rename", "edit"}, Intensity: 3, Output: "rows"}, 74)
-			n := l.N(200, 3000)
+			n := l.N(200, 15000)
 			for i := 0; i < n; i++ {
 				p := c05Params{NCols: 2 + rng.Intn(4), Branches: 2 + rng.Intn(2)/1*rng.Intn(2), Intensity: 1 + rng.Intn(8)}
 				switch rng.Intn(6) {
@@ -903,7 +903,7 @@ func init() {
 				}
 				l.Add("tuple", p, 0)
 			}
-			for i := 0; i < l.N(30, 300); i++ {
+			for i := 0; i < l.N(30, 1000); i++ {
 				p := c05Params{NCols: 2 + rng.Intn(3), Branches: 2, Intensity: 1 + rng.Intn(5), Rows: 3 + rng.Intn(40), Output: "cli"}
 				pc := pkChoices(p.NCols)
 				p.PK = pc[rng.Intn(len(pc))]
